@@ -21,6 +21,7 @@ def base_labels(prog):
         labs.append("shared-variable")
     if len(prog["outputs"]) > 1:
         labs.append("two-outputs")
+    labs += sorted({"leaf:" + l.get("kind", "numpy") for l in prog["leaves"] if l.get("kind", "numpy") != "numpy"})
     return labs
 
 
